@@ -1,6 +1,7 @@
 import GwModel.Select
 import GwModel.StepVars
 import GwModel.Gen.Facts
+import GwModel.PlanConfined
 /-! # C02 — Every outbound query is valid for, and confined to, its target service
 
 Proved on the model: (1) confinement — the location the chooser returns for a field is one of the services
@@ -40,6 +41,27 @@ theorem declared_values_are_sent {V : Type} (names : List String) (client : List
     (k : String) (v : V) (hk : k ∈ names) (hv : client.lookup k = some v) :
     (k, v) ∈ StepVars.stepVars names client joinId :=
   StepVars.stepVars_complete names client joinId k v hk hv
+
+/-- **Confinement of whole plans** (planner model `Pl`, tied to plan.go by the L1.plan correspondence): every
+    field, at every depth, of every step's selection set and of the fragment definitions left behind for the
+    step is the join id or is listed by the routing table for the service the step is sent to — for every
+    routing table, priority list, document (fragments, wrappers, directives, any nesting) and fuel. -/
+theorem every_step_asks_only_what_its_service_offers {env : Pl.Env} {fuel : Nat} {operation : String}
+    {sels : List Pl.Sel} {steps : List Pl.Step} (h : Pl.planOperation env fuel operation sels = .ok steps) :
+    ∀ s ∈ steps, Pl.ConfSels env s.location s.parentType s.sel ∧
+      ∀ f ∈ s.frags, Pl.ConfSels env s.location f.cond f.sub :=
+  fun s hs => Pl.planOperation_confined h s hs
+
+/-- non-vacuity of the plan theorem: `{ me { firstName lastName } }` with `lastName` served elsewhere plans
+    into a root step and one dependent step, and the dependent step holds `lastName` only -/
+def exEnv : Pl.Env :=
+  { routes := [("Query.me", ["A"]), ("User.firstName", ["A"]), ("User.lastName", ["B"]), ("User.id", ["A", "B"])],
+    configured := [], internal := "gw", planFrags := [] }
+def exSels : List Pl.Sel :=
+  [.field "me" "me" "" [] [] "User" [.field "firstName" "firstName" "" [] [] "String" [],
+                                      .field "lastName" "lastName" "" [] [] "String" []]]
+example : (Pl.planOperation exEnv 10 "query" exSels).toOption.map (fun steps => steps.map (fun s => (s.location, s.parentType, s.ip, s.sel.length))) =
+    some [("", "Query", [], 1), ("A", "Query", [], 1), ("B", "User", ["me"], 1)] := by decide
 
 /-- non-vacuity -/
 example : Sel.selectLocation Gen.selectLoc ["B", "C"] ["C"] "A" "gw" = some "C" ∧
